@@ -505,7 +505,7 @@ func ruleCarryOver(r *Run) {
 		if !ok {
 			return false
 		}
-		if len(rt.Results) == 3 && isFreshError(rt.Results[2]) {
+		if len(rt.Results) == 3 && p.certainlyNonNilError(rt.Results[2], 0) {
 			return false
 		}
 		return true
@@ -677,4 +677,47 @@ func ruleFrameAgree(r *Run) {
 	} else {
 		r.missing("method (*webWriter).writeTrailer")
 	}
+}
+
+// certainlyNonNilError: v is a freshly built error or a sentinel, a choice between such values, or the result of a
+// module function every return of which yields one.
+func (p *Program) certainlyNonNilError(v ssa.Value, depth int) bool {
+	if depth > 4 {
+		return false
+	}
+	if isNilConst(v) {
+		return false
+	}
+	if isFreshError(v) {
+		return true
+	}
+	switch x := v.(type) {
+	case *ssa.Phi:
+		for _, e := range x.Edges {
+			if !p.certainlyNonNilError(e, depth+1) {
+				return false
+			}
+		}
+		return len(x.Edges) > 0
+	case *ssa.Call:
+		callee := x.Call.StaticCallee()
+		if callee == nil || x.Call.IsInvoke() || !p.InModule(callee) || len(callee.Blocks) == 0 {
+			return false
+		}
+		ei := errResultIndex(callee)
+		if ei < 0 || callee.Signature.Results().Len() != 1 {
+			return false
+		}
+		all, any := true, false
+		eachInstr(callee, func(in ssa.Instruction) {
+			if rt, ok := in.(*ssa.Return); ok && ei < len(rt.Results) {
+				any = true
+				if !p.certainlyNonNilError(rt.Results[ei], depth+1) {
+					all = false
+				}
+			}
+		})
+		return all && any
+	}
+	return false
 }
